@@ -278,6 +278,16 @@ theorem enc_pos (ok : CertOracle) : ∀ (g : Nat) (s : Schema) (v : Val) (b : By
     case fixed n => cases v <;> simp [encodeS] at henc; subst henc; have := hh 2 ‹Bytes›.length; simp; omega
     case wrapBytes => cases v <;> simp [encodeS] at henc; subst henc; have := hh 2 ‹Bytes›.length; simp; omega
     case any => cases v <;> simp [encodeS] at henc; subst henc; exact encodeAny_len_pos _
+    case coseKey =>
+      cases v <;> simp [encodeS] at henc
+      rename_i ps
+      simp only [conf, Bool.and_eq_true] at hconf
+      exact ih (.mapOf .label .any) (.map ps) b maxDepth (by decide) hconf.1.1 henc
+    case chunk =>
+      obtain ⟨a, b', ms, rfl⟩ := chunk_shape g v b henc
+      simp only [conf, Bool.and_eq_true] at hconf
+      rw [chunk_enc g a b' ms hconf.1.1] at henc
+      simp at henc; subst henc; exact encodeAny_len_pos _
     case slice e =>
       cases v <;> simp [encodeS] at henc
       rename_i vs
@@ -795,6 +805,29 @@ theorem wS_step (ok : CertOracle) (g : Nat) (hS : WS ok g) (hL : WL ok g) (hF : 
     simp only [wconf] at hw
     simp only [Schema.ptrDepth] at hFu
     have h1 := decodeAny_encodeAny a [] dr (2 * (encodeAny a).length) hw (Nat.le_refl _)
+    simp only [List.append_nil] at h1
+    obtain ⟨x, hx⟩ := decodeAny_then_decode _ _ _ _ _ h1
+    have h2 := hx (F' + 1) (by omega)
+    exact ⟨x, by simpa using decode_append _ _ _ r _ _ h2⟩
+  | coseKey =>
+    simp only [Schema.ptrDepth] at hFu
+    cases v <;> try (simp [encodeS] at henc; done)
+    rename_i ps
+    simp only [encodeS] at henc
+    simp only [conf, Bool.and_eq_true] at hconf
+    simp only [wconf] at hw
+    have hfr : (Schema.mapOf .label .any).inFragment = true := by decide
+    obtain ⟨x', d1⟩ := hS (.mapOf .label .any) (.map ps) b r maxDepth dr F' hfr henc hconf.1.1 hw hlen (by simp [Schema.ptrDepth]; omega)
+    exact ⟨x', decode_fuel F' dr (b ++ r) x' r d1 (F' + 1) (by
+      have := decode_len F' dr (b ++ r) x' r d1
+      simp at this ⊢; omega)⟩
+  | chunk =>
+    simp only [Schema.ptrDepth] at hFu
+    obtain ⟨a, b', ms, rfl⟩ := chunk_shape g v b henc
+    simp only [wconf, Bool.and_eq_true] at hw
+    rw [chunk_enc g a b' ms hw.1] at henc
+    simp at henc; subst henc
+    have h1 := decodeAny_encodeAny (chunkArr a b' ms) [] dr (2 * (encodeAny (chunkArr a b' ms)).length) hw.2 (Nat.le_refl _)
     simp only [List.append_nil] at h1
     obtain ⟨x, hx⟩ := decodeAny_then_decode _ _ _ _ _ h1
     have h2 := hx (F' + 1) (by omega)
@@ -1404,6 +1437,61 @@ theorem rtS_step (ok : CertOracle) (g : Nat) (hS : RtS ok g) (hL : RtL ok g) (hF
     simp only [Schema.ptrDepth] at hf
     refine ⟨?_, encodeAny_len_pos a⟩
     simp only [decodeS, decodeAny_encodeAny a r d f' hconf (by omega)]
+  | coseKey =>
+    simp only [Schema.ptrDepth] at hf
+    cases v <;> try (simp [encodeS] at henc; done)
+    rename_i ps
+    simp only [encodeS] at henc
+    simp only [conf, Bool.and_eq_true] at hconf
+    obtain ⟨⟨hcm, hwm⟩, hkty⟩ := hconf
+    have hfr : (Schema.mapOf .label .any).inFragment = true := by decide
+    obtain ⟨x', dx⟩ := (w_all ok g).1 (.mapOf .label .any) (.map ps) b r maxDepth d f' hfr henc hcm hwm hlen (by simp [Schema.ptrDepth]; omega)
+    obtain ⟨d1, l1⟩ := hS (.mapOf .label .any) (.map ps) b [] maxDepth f' hfr henc hcm hlen (by simp [Schema.ptrDepth]; omega)
+    simp only [List.append_nil] at d1
+    refine ⟨?_, l1⟩
+    simp only [decodeS, dx, take_prefix, d1]
+    unfold ktyOK at hkty
+    split at hkty <;> simp_all
+  | chunk =>
+    simp only [Schema.ptrDepth] at hf
+    obtain ⟨a, b', ms, rfl⟩ := chunk_shape g v b henc
+    simp only [conf, Bool.and_eq_true] at hconf
+    obtain ⟨⟨htxt, hcd⟩, hcm⟩ := hconf
+    rw [chunk_enc g a b' ms htxt] at henc
+    simp at henc; subst henc
+    have pl := encodeAny_len_pos (chunkArr a b' ms)
+    refine ⟨?_, pl⟩
+    -- the raw pass
+    have h1 := decodeAny_encodeAny (chunkArr a b' ms) [] d (2 * (encodeAny (chunkArr a b' ms)).length) hcd (Nat.le_refl _)
+    simp only [List.append_nil] at h1
+    obtain ⟨x, hx⟩ := decodeAny_then_decode _ _ _ _ _ h1
+    have hraw : decode f' d (encodeAny (chunkArr a b' ms) ++ r) = some (x, r) := by
+      simpa using decode_append _ _ _ r _ _ (hx f' (by omega))
+    -- the typed pass on exactly those bytes: a `[]any`
+    obtain ⟨f'', rfl⟩ : ∃ f'', f' = f'' + 1 := ⟨f' - 1, by omega⟩
+    have hcl : confAnyListB (maxDepth - 1) (.int a :: .int b' :: ms.map chunkAny) = true ∧
+        (AnyVal.int a :: .int b' :: ms.map chunkAny).length < maxLen := by
+      simp only [chunkArr, confAnyB, Bool.and_eq_true, decide_eq_true_eq] at hcm
+      exact ⟨hcm.2, hcm.1.1⟩
+    have henc2 : encodeAny (chunkArr a b' ms) = encHead 4 (AnyVal.int a :: .int b' :: ms.map chunkAny).length ++
+        encodeAnyList (.int a :: .int b' :: ms.map chunkAny) := by simp [chunkArr, encodeAny]
+    have hp := encHead_length_pos 4 (AnyVal.int a :: .int b' :: ms.map chunkAny).length
+    have hel := decodeElems_any ok (.int a :: .int b' :: ms.map chunkAny) [] (maxDepth - 1) f'' hcl.1 (by
+      rw [henc2] at hf; simp only [List.length_append] at hf; omega)
+    simp only [List.append_nil] at hel
+    obtain ⟨ai, hd, _⟩ := decHead_encHead28 4 (AnyVal.int a :: .int b' :: ms.map chunkAny).length
+      (encodeAnyList (.int a :: .int b' :: ms.map chunkAny)) (by omega) (by have := hcl.2; simp only [maxLen] at this; omega)
+    have htyped : decodeS ok (f'' + 1) maxDepth (.slice .any) (encodeAny (chunkArr a b' ms)) =
+        some (.list (.any (.int a) :: .any (.int b') :: (ms.map chunkAny).map Val.any), []) := by
+      rw [henc2]
+      simp only [decodeS, hd, hel]
+      have : ¬ ((AnyVal.int a :: .int b' :: ms.map chunkAny).length ≥ maxLen ∨ maxDepth = 0) := by
+        have := hcl.2; simp only [maxDepth, maxLen] at this ⊢; omega
+      simp [this]
+      have := hcl.2; simp only [maxDepth, maxLen, List.length_cons, List.length_map] at this ⊢; omega
+    have hb := chunk_texts_back ms htxt
+    simp only [decodeS, hraw, take_prefix, htyped, hb.1, hb.2]
+    simp
   | _ => simp [Schema.inFragment] at hs
 
 
